@@ -38,7 +38,9 @@ def ref(name, vals, ts, cfg):
         if name == "pow":
             if y < 0:
                 return RAISES
-            return ("val", pow(x, y, p))
+            if ts[1] in "ib" and y <= 64:
+                return ("val", x ** y)          # constant exponent: plain repeated multiplication, the integer itself
+            return ("val", pow(x, y, p))        # secret exponent: square-and-multiply reduces modulo the field order
         if name == "lshift":
             if y < 0:
                 return RAISES
